@@ -185,7 +185,9 @@ def check(ctx):
     # (how statement i is paired with reaction i is C06's subject: when that pairing is spelled in a way C06.R1 does not read, this
     # property keeps its own half -- the rate comes out of <reaction>.rateexpr(..) and a refusal is not caught -- and says so in a note)
     pairing = []
-    ctx.absorb(assignment_rule, "R9", only=lambda o: not (o.outcome == UNRECOGNISED and o.key in ("_assign_rates:iteration", "_assign_rates:return") and (pairing.append(o.msg) or True)))
+    # (the same for the TEXT of the statement -- window guard, index, array symbol: when C06.R1 cannot reconstruct it, that is C06's open
+    # item; a statement it reads and finds wrong is still reported here)
+    ctx.absorb(assignment_rule, "R9", only=lambda o: not (o.outcome == UNRECOGNISED and o.key.startswith("_assign_rates:") and (pairing.append(o.msg) or True)))
     if pairing:
         ctx.note("C06.R1 does not read how _assign_rates pairs statements with reactions: " + pairing[0][:120])
         _r9_rate_from_rateexpr(ctx, pkg)
